@@ -176,7 +176,10 @@ class HandleLab:
 def body_of(t: dict) -> str:
     """Unique content with exactly t['lines'] lines (newline separated, no sentence punctuation)."""
     n = t['lines']
-    return '\n'.join(f"{t['ref']} v{t['ver']} {t['lang']} {t['width']} line {i + 1} of {n}" for i in range(n))
+    rows = [f"{t['ref']} v{t['ver']} {t['lang']} {t['width']} line {i + 1} of {n}" for i in range(n)]
+    if n >= 3:
+        rows[1] = ''       # a line without content is a line
+    return '\n'.join(rows)
 
 
 class TextLab:
@@ -449,7 +452,7 @@ def check(run, replay_path=None):
     if len(hcases) != n_req * n_var or len(variants) != n_var:
         raise MachineryError(f'handle domain: {len(hcases)} cases / {len(variants)} variants, expected '
                              f'{n_req} x {n_var}')
-    n_store = run.pick(8, 46)
+    n_store = run.pick(9, 5 * 7 + 2 * 7 + 4)
     n_filter = run.pick(4 * 3 * 4 * 4 * 3, 5 * 4 * 4 * 6 * 4)
     if len(tcases) != n_store * (n_filter + 1) or len(hcases) + len(tcases) != len(cases):
         raise MachineryError(f'text domain: {len(tcases)} cases, expected {n_store} x ({n_filter} + 1)')
